@@ -175,9 +175,9 @@ func H_C12_string() {
 		maxN = 4
 	}
 	n := vrtChoose("n", maxN+1)
-	mode := smUTF8
+	mode := smUTF8 | (0x4f << 2) // 1- to 4-byte classes and the class that holds U+FFFD
 	if vrtTier() == 0 && n == 3 {
-		mode = smUTF8 | (5 << 2) // quick: three code points only in the 1- and 3-byte classes
+		mode = smUTF8 | (0x41 << 2) // quick: three code points only in the 1-byte class and the 3-byte class that holds U+FFFD
 	}
 	s := vrtStrN("s", n, mode)
 	k := vrtChoose("pattern", len(c12Patterns))
